@@ -49,6 +49,8 @@ class Edits:
         out, segs = [], []
         pos, glen = lo, 0
         for (s, e, t, rule, note) in items:
+            if s < pos and e <= pos:
+                continue  # edit lies inside a region an earlier edit already replaced
             if s < pos:
                 raise ValueError(f"overlapping edits at {s} ({rule})")
             piece = src_text[pos:s]
